@@ -48,10 +48,21 @@ def gen(rng, tier):
         n = len(spec["model"]["tasks"])
         spec["model"]["ext_preds"] = [[rng.randrange(n), rng.choice([0, 1, 2, 3]), rng.choice([0, 0, 1, 2, -1])]
                                       for _ in range(rng.randint(1, 2))]
+    if rng.random() < 0.06 and not any(spec.get(k_) for k_ in ("history", "edit", "prelude_backward")) and not spec["model"].get("ext_preds") \
+            and spec["cfg"].get("unit_time", 1) == 1 and not any(t_.get("sub") for t_ in spec["model"]["tasks"]):
+        # a run made in two parts: cut off at step k and saved; restarted from the file with new logs (and absence steps of its
+        # own) and saved again; the log of the second part is appended to the project of the first part
+        k = rng.randint(1, 8)
+        spec["cfg"]["absence"] = [a for a in spec["cfg"].get("absence", []) if a < k]
+        spec["appended"] = {"k": k, "absence2": G.gen_absence(rng, 10, rng.randint(0, 3))}
     return spec
 
 
 def extra_candidates(spec):
+    if spec.get("appended") is not None:
+        c = dict(spec)
+        c.pop("appended")
+        yield c
     for c in C.history_candidates(spec):
         yield c
     for c in C.edit_candidates(spec):
@@ -206,10 +217,56 @@ def check_edited_logs(res, tr, marks, absence_before):
                 return
 
 
+def check_appended(res, spec):
+    """Part 1 (cut off at k, saved), part 2 (restarted from the file with new logs, saved), part 2 appended to part 1: in the
+    stitched logs a task falls back only from WORKING to READY and only at a step the project registers as an absence step."""
+    from .. import build as B, scen, env, seams
+    from .. import director as D
+    ap = spec["appended"]
+    scen.setup_run(spec.get("seed", 0))
+    b = B.build(spec["model"], spec.get("ranks"))
+    p = b.project
+    rec1, o1 = scen.simulate(p, dict(spec["cfg"], max_time=ap["k"]), want_snap=False)
+    if not (o1.ok and D.call(lambda: p.write_simple_json("mem:c01a.json")).ok):
+        return
+    r = env.M.bp.BaseProject()
+    if not D.call(lambda: r.read_simple_json("mem:c01a.json")).ok:
+        return
+    seams.attach(r)
+    seams.rerank(r, spec.get("ranks") or {})
+    rec2, o2 = scen.simulate(r, dict(spec["cfg"], absence=list(ap["absence2"]), init_state=False, init_log=True), want_snap=False)
+    if not (o2.ok and D.call(lambda: r.write_simple_json("mem:c01b.json")).ok):
+        return
+    n1 = len(p.cost_list)
+    reg1, reg2 = list(p.absence_time_list), list(r.absence_time_list)
+    if not D.call(lambda: p.append_project_log_from_simple_json("mem:c01b.json")).ok:
+        return
+    res.count("appended_logs_checked")
+    exp = sorted(reg1 + [n1 + a for a in reg2])
+    got = sorted(p.absence_time_list)
+    if got != exp:
+        res.add("appended", "C01.after_append_log.registered_steps",
+                "part 1 (%d steps, registered absence steps %s) + appended part 2 (registered %s): project.absence_time_list is %s, the "
+                "absence steps of the stitched logs are %s" % (n1, reg1, reg2, got, exp), None)
+        return
+    registered = set(got)
+    for t in p.workflow.task_list:
+        log = [int(x) for x in t.state_record_list]
+        for i in range(1, len(log)):
+            a_, b_ = log[i - 1], log[i]
+            if RANK.get(b_, 2) < RANK.get(a_, 2) and not (a_ == WORKING and b_ == READY and i in registered):
+                res.add("appended", "C01.after_append_log.log_moves_backward.%s_to_%s" % (SNAME.get(a_), SNAME.get(b_)),
+                        "stitched log of %s goes %s -> %s at index %d (part 1 has %d steps; registered absence steps %s)"
+                        % (t.ID, SNAME.get(a_, a_), SNAME.get(b_, b_), i, n1, got), i)
+                return
+
+
 def run(spec):
     tr = C.run_forward(spec)
     res = C.base_result(tr)
     check_trace(res, tr)
+    if spec.get("appended") is not None and tr.out.ok:
+        check_appended(res, spec)
     res.nontrivial = bool(tr.model["deps"]) and tr.rec.n_recorded >= 2
     if spec.get("edit") and tr.out.ok:
         tr.edit = spec["edit"]
